@@ -121,7 +121,12 @@ class CallTimeout(BaseException):
 
 class call_limit:
     """`with call_limit(5): proto.data_received(...)` -> CallTimeout if the call does not return
-    (SIGALRM, main thread only), so that a non-terminating implementation is a finding, not a hang."""
+    (main thread only), so that a non-terminating implementation is a finding, not a hang.
+
+    The limit is on the CPU time this process consumes (ITIMER_PROF), not on the wall clock: on a loaded machine
+    a healthy callback can be descheduled for many seconds (observed: a plain POST /pairings delivered byte by byte
+    'did not return within 5 s' while four thorough runs and a seed regression shared the machine).  A call that
+    hangs without burning CPU is caught by a wall-clock backstop of 20 x the limit (at least 60 s)."""
 
     def __init__(self, seconds: float):
         self.seconds = seconds
@@ -132,13 +137,17 @@ class call_limit:
     def __enter__(self):
         import signal
 
+        self.old_prof = signal.signal(signal.SIGPROF, self._raise)
         self.old = signal.signal(signal.SIGALRM, self._raise)
-        signal.setitimer(signal.ITIMER_REAL, self.seconds)
+        signal.setitimer(signal.ITIMER_PROF, self.seconds)
+        signal.setitimer(signal.ITIMER_REAL, max(60.0, 20.0 * self.seconds))
 
     def __exit__(self, *a):
         import signal
 
+        signal.setitimer(signal.ITIMER_PROF, 0)
         signal.setitimer(signal.ITIMER_REAL, 0)
+        signal.signal(signal.SIGPROF, self.old_prof)
         signal.signal(signal.SIGALRM, self.old)
         return False
 
